@@ -3,10 +3,37 @@
 import json, os
 V = os.path.dirname(os.path.dirname(os.path.abspath(__file__)))
 
+CONN_NOTE = ("Trusts TLC, Tokio's current-thread scheduler / paused clock / seeded select!, the mock transport and scripted server of the "
+             "harness, and that the guarded hooks sit at the linearization points (corruption self-tests). Exhaustive for the bounded model "
+             "instance; the implementation is sampled by seeded scenarios, each validated event by event against the same specification.")
 CHECKS = {
+ "C01": dict(cat="model_checking", tech="TLA+ model of the connection (LdapConn.tla) checked by TLC + trace validation of the real driver (TraceLdapConn.tla)",
+      text="TLC exhausts every interleaving of two operations of any kind (three with fixed roles in thorough) with arbitrary server order and orphan responses against the Routing invariant; seeded concurrent scenarios of the real driver are recorded at hook points and validated as behaviours of the same spec, every returned token bound to what the server sent under the caller's wire ID.",
+      note=CONN_NOTE, ref="6/C01, 3.2, 4"),
+ "C04": dict(cat="model_checking", tech="TLA+ model with transport faults (LdapConn.tla): TLC safety + liveness (Termination under weak fairness); fault-injected traces of the real code validated by TraceLdapConn.tla",
+      text="Server close, reset, undecodable frame, write failure, unbind and last-handle drop are actions of the model enabled at every point; FailFast/NotStuck/UnbindCloses/DeliveredSurvives are checked exhaustively for two operations and Termination under fairness in thorough; the real code gets one fault of each kind at random points of seeded scenarios, with hangs and panics surfacing as events no action explains.",
+      note=CONN_NOTE + " 'Never hangs' for the implementation is established up to the virtual-time watchdog horizon.", ref="6/C04"),
+ "C12": dict(cat="model_checking", tech="TLA+ model with an explicit clock (LdapConn.tla, Tick/deadline) + trace validation under Tokio's paused clock",
+      text="TimeoutExact (nobody waits past its deadline; a timer fires only at its deadline; per-item restart for searches) and TimeoutKeepsConn are checked by TLC over arrival times before/at/after the deadline; the real code runs under a paused clock advanced 1 ms at a time and every timeout return, late reply and later operation is bound to the model's clock.",
+      note=CONN_NOTE + " Wall-clock accuracy of Tokio's timer wheel is not examined (virtual time only).", ref="6/C12"),
+ "C13": dict(cat="model_checking", tech="TLA+ model of the routing tables and ID set (LdapConn.tla, NoLeak at quiescence) + snapshot-bound trace validation",
+      text="NoLeak is checked by TLC over every interleaving of two operations incl. timeouts racing the request dequeue, abandons and early finish; the real driver's {used, resultmap, searchmap} snapshot after every turn is compared with the model's and the quiescent end state is read through an accessor.",
+      note=CONN_NOTE, ref="6/C13"),
  "C07": dict(cat="model_checking", tech="TLA+ reference model of X.690 (Ber.tla): TLC checks round-trip/minimality laws, prints every state as a vector replayed into lber; lber-produced pairs validated by a trace spec",
       text="TLC exhausts a bounded space of tag trees, boundary lengths and 8-octet integer patterns: the X.690 laws are invariants of the spec, every explored state is replayed into lber (encode, parse with trailing bytes, every alternative definite length form), and random lber input/output pairs are recomputed by TLC. Exhaustive within the pools, sampled beyond.",
       note="Trusts TLC, the Json module, my transcription of X.690 (checked by its own laws) and the JSON<->StructureTag projection of the harness.", ref="6/C07"),
+ "C09": dict(cat="model_checking", tech="TLA+ RFC 4515 / RFC 4514 parsers (Escape.tla): TLC enumerates values, the implementation's escaped output is judged by the spec's own parsers (TraceEscape.tla)",
+      text="All strings of length <= 2 over 0x00-0x7F plus multi-byte symbols and all strings of length <= 4 over the metacharacter alphabet are enumerated by TLC; ldap_escape/dn_escape/ldap_unescape/parse_filter outputs are validated against the inertness laws with RFC parsers written in TLA+, so a different but correct escaping style passes and a dropped special fails.",
+      note="Trusts TLC, the transcription of RFC 4515/4514 (cross-validated by three reference escaping styles on the spec) and the harness byte projection. '=' in DN values may be escaped or not (not must-escape in RFC 4514).", ref="6/C09"),
+ "C15": dict(cat="model_checking", tech="TLA+ model of SearchEntry::construct with a UTF-8 well-formedness predicate (Entry.tla); vectors encoded by the spec's BER and replayed; random entries validated by TraceEntry.tla",
+      text="Entries with <= 2 attributes x <= 3 values from a pool of valid and invalid UTF-8 byte strings are enumerated; the spec's invariants (exactly one map, multiset preserved, text iff all values well-formed) hold on the model and every vector is parsed by lber and passed through construct(); random larger entries go the other way.",
+      note="Trusts TLC, the UTF-8 predicate (three independent formulations agree on every generated value) and the harness projection. Duplicate attribute types in one entry are outside the property.", ref="6/C15"),
+ "C19": dict(cat="model_checking", tech="TLA+ table of control/exop codecs (Controls.tla over Ber.tla): expected OID/criticality/value from the RFC syntax, all length forms for responses, envelope round trip; TraceControls.tla for random values",
+      text="Every request control and extended request of the library is encoded by the implementation for pooled field values and compared with the bytes the RFC syntax prescribes; every response value is presented in minimal and non-minimal length forms and the parsed struct compared; control lists go through the LDAPMessage envelope both ways.",
+      note="Trusts TLC, the RFC transcription (hand-assembled byte anchors as ASSUMEs) and the harness projection. The response domain is what the library's structs can represent; EndTxnResp is not covered.", ref="6/C19"),
+ "C20": dict(cat="model_checking", tech="TLA+ RFC 4516 formatter + independent reference reader (Url4516.tla): TLC checks ParseUrl(Format(x)) = Expected(x) and emits URLs replayed into get_url_params; TraceUrl.tla for random components",
+      text="Component pools (delimiters, percent, non-ASCII, defaults, extensions recognised/unknown/critical) are crossed by TLC; each formatted URL is parsed by the url crate and get_url_params and compared with the documented result incl. error rows; random Unicode components are validated in the other direction.",
+      note="Trusts TLC, the url crate, the RFC 4516 transcription (checked against an independent reader in the spec). Attribute names decoded or as written are both accepted; case variants of scope words may be rejected or accepted.", ref="6/C20"),
 }
 
 NOT_YET = {}
@@ -33,7 +60,7 @@ def main():
              hooks=dict(guard="--cfg ldap3_verif",
                         enable="RUSTFLAGS in harness/.cargo/config.toml: --cfg ldap3_verif --cfg tokio_unstable (the harness has a path dependency on /repo)",
                         baseline_off_cmd="cd /repo && cargo test --workspace --no-fail-fast --offline",
-                        source_commits=["badc661", "849fab6"], add_only=True),
+                        source_commits=["badc661", "849fab6", "bbaf853"], add_only=True),
              engines=[dict(name="tlc", path="spec/", serves_properties=sorted(CHECKS), kind_free_text="TLA+ specifications checked by TLC (model checking, vector/scenario generation, trace validation)"),
                       dict(name="harness", path="harness/", serves_properties=sorted(CHECKS), kind_free_text="Rust conformance harness: replays TLC output into ldap3/lber and records implementation traces for TLC")],
              checks=checks,
